@@ -387,9 +387,7 @@ theorem Acc_dataCore (q : Quirks) (now : Nat) (c cid : Conn) (s : State) (cmd : 
 theorem Acc_dataCmd (q : Quirks) (now : Nat) (c cid : Conn) (s : State) (cmd : Cmd) (h : Acc s) :
     Acc (dataCmd q now c cid s cmd) := by
   unfold dataCmd
-  split
-  · exact Acc_dataCore q now c cid s cmd h
-  · exact Acc_drain q _ (Acc_dataCore q now c cid s cmd h)
+  exact Acc_drain q _ (Acc_dataCore q now c cid s cmd h)
 
 theorem Acc_serveKey (q : Quirks) (k : Key) : ∀ n s, Acc s → Acc (serveKey q k n s) := by
   intro n
@@ -399,7 +397,9 @@ theorem Acc_serveKey (q : Quirks) (k : Key) : ∀ n s, Acc s → Acc (serveKey q
     intro s h
     simp only [serveKey]
     split
-    · exact ih _ (Acc_wakeOne q _ (Acc_notify k s h))
+    · split
+      · exact ih _ (Acc_iter (Acc_wakeOne q) _ _ (Acc_notify k s h))
+      · exact ih _ (Acc_wakeOne q _ (Acc_notify k s h))
     · exact h
 
 theorem Acc_serveKeys (q : Quirks) (ks : List Key) : ∀ s, Acc s → Acc (serveKeys q ks s) := by
@@ -484,6 +484,14 @@ theorem Acc_step (q : Quirks) (s : State) (e : Event) (h : Acc s) : Acc (step q 
   | reap c =>
     simp only [step]; split
     · exact Acc_congr (s := s) rfl rfl rfl rfl h
+    · exact h
+  | kill c =>
+    simp only [step]; split
+    · exact Acc_setConn h
+    · exact h
+  | hangupDirty c =>
+    simp only [step]; split
+    · exact Acc_setConn h
     · exact h
 
 theorem Acc_runFrom (q : Quirks) (evs : List Event) : ∀ s, Acc s → Acc (runFrom q s evs) := by
